@@ -97,7 +97,23 @@ def cli_build():
     cmd = ["cargo", "build", "--release", "--offline", "-p", "dictgen", "-p", "compile", "-p", "map", "-p", "tokenize"]
     r = subprocess.run(cmd, cwd="/repo", env=env, timeout=3600, stdin=subprocess.DEVNULL, stdout=subprocess.PIPE,
                        stderr=subprocess.PIPE, text=True)
-    return r.returncode == 0, (r.stdout + r.stderr)
+    if r.returncode != 0:
+        return False, (r.stdout + r.stderr)
+    # examples/mecab_smalldic is outside the workspace: build a copy whose path dependency points at /repo/vibrato
+    # (building it in place would write Cargo.lock and target/ into /repo)
+    import shutil
+    ex = os.path.join(WORK, "ex_mecab_smalldic")
+    shutil.rmtree(ex, ignore_errors=True)
+    os.makedirs(ex, exist_ok=True)
+    shutil.copytree("/repo/examples/mecab_smalldic/src", os.path.join(ex, "src"))
+    toml = open("/repo/examples/mecab_smalldic/Cargo.toml").read().replace('path = "../../vibrato"', 'path = "/repo/vibrato"')
+    with open(os.path.join(ex, "Cargo.toml"), "w") as f:
+        f.write(toml + "\n[workspace]\n")
+    shutil.copy("/repo/Cargo.lock", os.path.join(ex, "Cargo.lock"))
+    r2 = subprocess.run(["cargo", "build", "--release", "--offline"], cwd=ex, env=env, timeout=3600, stdin=subprocess.DEVNULL,
+                        stdout=subprocess.PIPE, stderr=subprocess.PIPE, text=True)
+    shutil.rmtree(ex, ignore_errors=True)
+    return r2.returncode == 0, (r.stdout + r.stderr + r2.stdout + r2.stderr)
 
 
 def audit(theorems, modules):
